@@ -17,6 +17,7 @@ hmod!(msg, "msg.rs");
 hmod!(world, "world.rs");
 hmod!(faults, "faults.rs");
 hmod!(c05_shuffle, "c05_shuffle.rs");
+hmod!(c07_circuits, "c07_circuits.rs");
 hmod!(c13_gateway, "c13_gateway.rs");
 hmod!(c19_reshard, "c19_reshard.rs");
 hmod!(c15_seqjoin, "c15_seqjoin.rs");
@@ -28,6 +29,7 @@ fn registry() -> Vec<&'static dyn Scenario> {
     let mut v: Vec<&'static dyn Scenario> = Vec::new();
     v.extend(crate::helpers::verif_h2::scenarios());
     v.extend(c05_shuffle::scenarios());
+    v.extend(c07_circuits::scenarios());
     v.extend(c13_gateway::scenarios());
     v.extend(c15_seqjoin::scenarios());
     v.extend(c17_parsers::scenarios());
